@@ -4,7 +4,7 @@ One static service; the behaviour of a call is a JSON program passed as a parame
 enumerates becomes a real call without generating code:
 
     prog = {"init_logs": [LOG...], "init_raise": bool,
-            "steps": [{"pre": [LOG...], "act": "emit|emitfin|fin|none|raise", "post": [LOG...],
+            "steps": [{"pre": [LOG...], "act": "emit|emitfin|fin|none|raise|emitraise", "post": [LOG...],
                        "rows": int, "md": bool, "name": str}, ...],
             "past": "fin" | "emit"}
     LOG  = {"id": int, "level": "INFO", "text": str, "extra": {..} | null, "via": "kwargs" | "attr", "api": "ctx" | "out"}
@@ -93,7 +93,7 @@ def _run_step(state, inp: AnnotatedBatch | None, out: OutputCollector, ctx: Call
     if act == "raise":
         rec(state.x, ("e",))
         raise ValueError(f"process boom x={state.x}")
-    if act in ("emit", "emitfin"):
+    if act in ("emit", "emitfin", "emitraise"):
         state.nd += 1
         rows = st.get("rows", 1)
         ident = state.x * 1000 + state.nd
@@ -102,6 +102,9 @@ def _run_step(state, inp: AnnotatedBatch | None, out: OutputCollector, ctx: Call
         out.emit_pydict({"v": [ident] * rows}, metadata=md)
     for lg in st.get("post", []):
         _emit_log(ctx, state.x, lg, out)
+    if act == "emitraise":                 # the step fails AFTER it emitted its batch and logged `post` more messages
+        rec(state.x, ("e",))
+        raise ValueError(f"process boom after emit x={state.x}")
     if act in ("fin", "emitfin"):
         rec(state.x, ("s",))
         out.finish()
